@@ -1491,3 +1491,24 @@ package memberlist
 //@ func (*NetTransport).IngestStream(t, conn)
 //@   safety [C13]
 //@   requires ok: t != nil
+
+// ---------------------------------------------------------------------
+// C20: lock levels (deadlock freedom of the mutexes, DESIGN §12.8). Every acquisition site of the package (a
+// Lock/RLock, or a call of a function that may acquire, reached with a lock held) is an obligation against this
+// strict partial order; every blocking operation reached with a lock held (channel operation, blocking select arm,
+// WaitGroup.Wait, sleep, network or user call-out) is an obligation against the wait set of each lock held there.
+// Locks that appear in neither list are leaf locks: nothing is acquired and nothing blocks while they are held
+// (ackLock, msgQueueLock, advertiseLock, Keyring.l, tickerLock, the transports' locks).
+// ---------------------------------------------------------------------
+//@ lockorder Memberlist.leaveLock < Memberlist.nodeLock < TransmitLimitedQueue.mu
+//@ lockorder Memberlist.nodeLock < awareness.RWMutex
+//@ lockorder Memberlist.shutdownLock < Memberlist.tickerLock
+// Leave keeps leaveLock while it waits for its departure to be gossiped (bounded by its timeout argument); the
+// state transition under it calls out to the event delegate and the broadcast queue.
+//@ lockwaits Memberlist.leaveLock: recv:Memberlist.leaveBroadcast; invoke:EventDelegate.NotifyLeave; send:ChannelEventDelegate.Ch; invoke:Broadcast.Finished; invoke:Broadcast.Message; invoke:NamedBroadcast.Name
+// nodeLock is held across the user's delegates (documented: they must not block or call back into the list) and
+// across the broadcast queue's calls of Broadcast methods.
+//@ lockwaits Memberlist.nodeLock: invoke:AliveDelegate.NotifyAlive; invoke:ConflictDelegate.NotifyConflict; invoke:EventDelegate.NotifyJoin; invoke:EventDelegate.NotifyLeave; invoke:EventDelegate.NotifyUpdate; send:ChannelEventDelegate.Ch; invoke:Broadcast.Finished; invoke:Broadcast.Message; invoke:NamedBroadcast.Name
+// Shutdown closes the transport (which waits for its listeners) under shutdownLock.
+//@ lockwaits Memberlist.shutdownLock: invoke:NodeAwareTransport.Shutdown; call:(*sync.WaitGroup).Wait
+//@ lockwaits TransmitLimitedQueue.mu: dyn:TransmitLimitedQueue.NumNodes; invoke:Broadcast.Finished; invoke:Broadcast.Message; invoke:NamedBroadcast.Name
